@@ -41,12 +41,12 @@ func init() { props["C20"] = runC20 }
 
 type c20Env struct {
 	resolvers map[[2]string]bool // (type, field) with @connect__fieldResolver
-	conn     *grpc.ClientConn
-	def      *ast.Document
-	compiler *grpcdatasource.RPCCompiler
-	mapping  *grpcdatasource.GRPCMapping
-	schema   *fedSchema
-	stop     func()
+	conn      *grpc.ClientConn
+	def       *ast.Document
+	compiler  *grpcdatasource.RPCCompiler
+	mapping   *grpcdatasource.GRPCMapping
+	schema    *fedSchema
+	stop      func()
 }
 
 var c20Once sync.Once
@@ -158,13 +158,13 @@ func (e *c20Env) load(written string) (data any, raw string, err error) {
 // ---- selection trees ----------------------------------------------------------------------------------------------------
 
 type c20Node struct {
-	Field    string              `json:"field"`
-	Args     string              `json:"args,omitempty"` // literal argument text, with parentheses
-	Children []*c20Node          `json:"children,omitempty"`
-	ByType   map[string][]*c20Node `json:"byType,omitempty"` // abstract return type: selections per possible type
-	ListDepth int                  `json:"listDepth,omitempty"` // nesting of list types of the field's type
-	Resolver  bool                 `json:"resolver,omitempty"`  // the field is a @connect__fieldResolver field
-	typ      *fedType
+	Field     string                `json:"field"`
+	Args      string                `json:"args,omitempty"` // literal argument text, with parentheses
+	Children  []*c20Node            `json:"children,omitempty"`
+	ByType    map[string][]*c20Node `json:"byType,omitempty"`    // abstract return type: selections per possible type
+	ListDepth int                   `json:"listDepth,omitempty"` // nesting of list types of the field's type
+	Resolver  bool                  `json:"resolver,omitempty"`  // the field is a @connect__fieldResolver field
+	typ       *fedType
 }
 
 func c20ListDepth(t map[string]any) int {
@@ -645,11 +645,11 @@ func (e *c20Env) checkShape(sels []any, typeName string, v any, path string) str
 // ---- one case -----------------------------------------------------------------------------------------------------------------
 
 type c20Case struct {
-	Root         string     `json:"root"`
-	Args         string     `json:"args,omitempty"`
-	Tree         *c20Node   `json:"tree"`
-	Superset     string     `json:"superset"`
-	Formulations []string   `json:"formulations"`
+	Root         string   `json:"root"`
+	Args         string   `json:"args,omitempty"`
+	Tree         *c20Node `json:"tree"`
+	Superset     string   `json:"superset"`
+	Formulations []string `json:"formulations"`
 }
 
 func (e *c20Env) attachTypes(n *c20Node, t *fedType) {
@@ -743,8 +743,8 @@ func c20Check(run *Run, e *c20Env, c *c20Case) {
 
 func runC20(run *Run, replay string) Spec {
 	spec := Spec{
-		Level: "translation_validation",
-		Rule: "21 deterministic root fields of the mock product service (objects, lists, nested lists, nullable fields, enums, interfaces, unions, recursive types) × generated selection trees × 3 formulations each (subset, aliases, reordering, duplicated leaves, a field split into two occurrences with partial selections, inline fragments on the same type, per-type fragments of abstract types): the datasource's answer = projection, by the Lean reference executor, of the service data (the answer to the canonical alias-free superset with __typename and all scalars); every value has the kind its declared type demands. non-trivial = cases with an abstract type or a split / aliased field; distinct = distinct (root, tree)",
+		Level:       "translation_validation",
+		Rule:        "21 deterministic root fields of the mock product service (objects, lists, nested lists, nullable fields, enums, interfaces, unions, recursive types) × generated selection trees × 3 formulations each (subset, aliases, reordering, duplicated leaves, a field split into two occurrences with partial selections, inline fragments on the same type, per-type fragments of abstract types): the datasource's answer = projection, by the Lean reference executor, of the service data (the answer to the canonical alias-free superset with __typename and all scalars); every value has the kind its declared type demands. non-trivial = cases with an abstract type or a split / aliased field; distinct = distinct (root, tree)",
 		TrustedBase: []string{"the Lean reference executor GqlVerif.Gql.Exec as the projection (CollectFields, field merging, fragment applicability, aliases)", "the repository's mock service, proto schema, default mapping and compiler", "the canonical superset's answer as the service data"},
 		Assumptions: []string{"fields with arguments below the root (field resolvers), entity lookups, mutations and the two random root fields are not exercised", "every operation passes the repository's normalizer (fragment inlining, field merging, variable extraction) before it reaches the datasource, as on the engine's path; duplicated and split fields and same-type fragments therefore reach the datasource merged"},
 	}
